@@ -137,9 +137,10 @@ class C02(CmpProp):
             head = ('#[::derive_ex::derive_ex(%s)]\n' % r.attr) if r.mode == 'A' else '#[derive(::derive_ex::Ex)]\n'
             nf = max([len(fl) for _, fl in m['variants']] + [0])
             dom = [0, 1, 2, 3] if nf <= 2 else [0, 1, 3]
-            values = G.values_of(m['variants'], dom, [0, 1, 2])     # lawful values only (P(9) is NaN-like)
+            values = (G.values_of(m['variants'], dom, [0, 1, 2]) if 'fixed_values' not in m else [])     # lawful values only (P(9) is NaN-like)
             if len(values) > 40:
                 values = values[::(len(values) // 40 + 1)]
+            values = m.get('fixed_values') or values
             m['values'] = values
             mods.append(l2.Module(r.cid, G.module_source(r.cid, head, r.item, m['name'], m['variants'], m['enum'],
                                                          m['traits'], values), r))
